@@ -254,9 +254,15 @@ theorem restoreFail_spec {c1 : Cell} {a : App} {sid : Nat} {now : Int} {rs rs' :
     refine ⟨fun x s hs => removeApp_srvOf h2 x s hs, ?_⟩
     intro w hw
     simp only [List.mem_append, List.mem_cons, List.not_mem_nil, or_false] at hw
-    rcases hw with hw | rfl | rfl | rfl
+    rcases hw with (hw | rfl | rfl | rfl) | hw
     · exact Or.inl hw
-    all_goals exact Or.inr (fun _ _ _ _ _ e => nomatch e)
+    · exact Or.inr (fun _ _ _ _ _ e => nomatch e)
+    · exact Or.inr (fun _ _ _ _ _ e => nomatch e)
+    · exact Or.inr (fun _ _ _ _ _ e => nomatch e)
+    · split at hw
+      · simp only [List.mem_singleton] at hw; subst hw
+        exact Or.inr (fun _ _ _ _ _ e => nomatch e)
+      · cases hw
   · simp only [pure, Except.pure] at h
     injection h with h; subst h
     refine ⟨fun x s hs => hs, ?_⟩
